@@ -148,6 +148,7 @@ func genOp(t *rapid.T, cfg simCfg, p genProfile, depth int) Op {
 		op.D = rapid.IntRange(0, 3).Draw(t, "data")
 		op.PCP = rapid.SampledFrom(p.pcpVariants).Draw(t, "pcp")
 		op.Dup = rapid.IntRange(0, 9).Draw(t, "dup") == 0
+		op.NS = (op.V == phFresh || op.V == phAltNext) && rapid.IntRange(0, 7).Draw(t, "lost") == 0
 	case "vote":
 		op.DH = rapid.SampledFrom(dhs).Draw(t, "dh")
 		op.DR = rapid.SampledFrom(drs).Draw(t, "dr")
